@@ -3,6 +3,7 @@ package run
 import (
 	"context"
 	"fmt"
+	"io"
 	"strconv"
 	"strings"
 	"time"
@@ -124,16 +125,43 @@ func execMm1415[N int64 | float64](op string, valsTxt string, parse func(string)
 	ctx := context.Background()
 	var v N
 	var err error
+	// "<op>@ch" / "<op>@cur": the same over a one-shot source (a channel, a cursor provider): the extremum of "any
+	// non-empty stream", not only of a replayable one
+	src := stream.Just(in...)
+	if i := strings.IndexByte(op, '@'); i >= 0 {
+		switch op[i+1:] {
+		case "ch":
+			ch := make(chan N, len(in))
+			for _, x := range in {
+				ch <- x
+			}
+			close(ch)
+			src = stream.FromChannel[N](ch)
+		case "cur":
+			pos := 0
+			src = stream.NewSimpleStream(func(ctx context.Context) (N, error) {
+				if pos >= len(in) {
+					var zero N
+					return zero, io.EOF
+				}
+				pos++
+				return in[pos-1], nil
+			})
+		default:
+			return "bad-case"
+		}
+		op = op[:i]
+	}
 	switch op {
 	case "min":
-		v, err = stream.Min(ctx, stream.Just(in...))
+		v, err = stream.Min(ctx, src)
 	case "max":
-		v, err = stream.Max(ctx, stream.Just(in...))
+		v, err = stream.Max(ctx, src)
 	case "minlazy":
-		var l lazy.Lazy[N] = stream.MinLazy(stream.Just(in...))
+		var l lazy.Lazy[N] = stream.MinLazy(src)
 		v, err = l.Get(ctx)
 	case "maxlazy":
-		var l lazy.Lazy[N] = stream.MaxLazy(stream.Just(in...))
+		var l lazy.Lazy[N] = stream.MaxLazy(src)
 		v, err = l.Get(ctx)
 	default:
 		return "bad-case"
@@ -490,7 +518,9 @@ func genMm1415(c *Ctx) {
 				txt = strings.Join(vs, ",")
 			}
 			for _, op := range ops {
-				c.Case(len(cur) >= 2, fmt.Sprintf("mm %s %s | %s", op, ty, txt))
+				for _, src := range []string{"", "@ch", "@cur"} {
+					c.Case(len(cur) >= 2, fmt.Sprintf("mm %s%s %s | %s", op, src, ty, txt))
+				}
 			}
 		}
 		if len(cur) >= maxLen {
@@ -513,7 +543,7 @@ func genMm1415(c *Ctx) {
 		if ln > 0 {
 			txt = strings.Join(vs, ",")
 		}
-		c.Case(ln >= 2, fmt.Sprintf("mm %s %s | %s", ops[c.Rng.Intn(4)], ty, txt))
+		c.Case(ln >= 2, fmt.Sprintf("mm %s%s %s | %s", ops[c.Rng.Intn(4)], []string{"", "@ch", "@cur"}[c.Rng.Intn(3)], ty, txt))
 	}
 }
 
